@@ -137,7 +137,7 @@ class TypeB:
                 continue
             vt = "int"
             self.d["fields"].append({"name": m["name"], "kind": "virt", "value": R(fname, m["name"]), "alias": [fname, m["name"]],
-                                     "anon": True, "vt": vt, "requires": [], "anon_member": True})
+                                     "anon": True, "vt": vt, "requires": [], "anon_member": True, "xform": []})
         return self
 
     def array(self, name, start, size, elem, elsize, cond=True, auto=False, **hints):
@@ -155,14 +155,30 @@ class TypeB:
         return self
 
     def virt(self, name, value, vt="int", requires=None, **hints):
-        f = {"name": name, "kind": "virt", "value": E(value), "alias": [], "anon": False, "vt": vt,
+        f = {"name": name, "kind": "virt", "value": E(value), "alias": [], "anon": False, "vt": vt, "xform": [],
              "requires": [E(requires)] if requires is not None else []}
         f.update(hints)
         self.d["fields"].append(f)
         return self
 
+    def transform(self, name, op, dest, c, requires=None, **hints):
+        """Writable virtual per the language reference: op in "y+c" (also rendered c+y with flip=True), "y-c", "c-y"."""
+        path = dest.split(".") if isinstance(dest, str) else list(dest)
+        y = R(*path)
+        if op == "y+c":
+            value = Op("+", I(c), y) if hints.pop("flip", False) else Op("+", y, I(c))
+        elif op == "y-c":
+            value = Op("-", y, I(c))
+        else:
+            value = Op("-", I(c), y)
+        f = {"name": name, "kind": "virt", "value": value, "alias": [], "anon": False, "vt": "int",
+             "xform": [{"op": op, "c": c, "dest": path}], "requires": [E(requires)] if requires is not None else []}
+        f.update(hints)
+        self.d["fields"].append(f)
+        return self
+
     def alias(self, name, *path, **hints):
-        f = {"name": name, "kind": "virt", "value": R(*path), "alias": list(path), "anon": False, "vt": "int", "requires": []}
+        f = {"name": name, "kind": "virt", "value": R(*path), "alias": list(path), "anon": False, "vt": "int", "requires": [], "xform": []}
         f.update(hints)
         self.d["fields"].append(f)
         return self
